@@ -409,6 +409,7 @@ def gen(rng, tier):
         k = rng.randint(2, 4)
         strs = rng.random() < 0.5
         labels = [("S%d" % (i + 1)) if strs else (i + 1) * 3 for i in range(k)]
+        rng.shuffle(labels)      # dict order, not label order, decides which polygon is drawn last
         polys = []
         for _i in range(k):
             for _try in range(50):
